@@ -134,6 +134,9 @@ func End() { panic(endPath{}) }
 
 type endPath struct{}
 
+// IsEnd reports whether a recovered panic value is End()'s.
+func IsEnd(r any) bool { _, ok := r.(endPath); return ok }
+
 // Yield is an explicit preemption point.
 func Yield() {}
 
